@@ -17,7 +17,7 @@ sys.path.insert(0, HERE)
 
 import facts as FACTS
 from model import Program
-from effects import Effects
+from effects import Effects, load_program
 from rules_h import Handlers
 import registry
 
@@ -85,7 +85,7 @@ def thorough_extras(pid, rules, results, errors):
         out["seeded"].append(dict(seed=os.path.basename(d), status=st))
     try:
         fx2 = FACTS.build_facts(REPO, extra_rustflags="-C debug-assertions=off")
-        P2 = Program(fx2); E2 = Effects(P2); H2 = Handlers(P2, E2)
+        P2 = load_program(fx2); E2 = Effects(P2); H2 = Handlers(P2, E2)
         ctx2 = registry.Ctx(P2, E2, H2)
         v1 = sorted((rid,) + v.key for (rid, r, _) in results for v in r.violations)
         v2 = []
@@ -139,7 +139,7 @@ def main(argv):
     except FACTS.FactsError as e:
         print("FAIL-CLOSED property=%s cannot build facts: %s" % (pid, e))
         return 2
-    P = Program(fx)
+    P = load_program(fx)
     E = Effects(P)
     H = Handlers(P, E)
     ctx = registry.Ctx(P, E, H)
